@@ -72,6 +72,7 @@ type result struct {
 	Diverged   string           `json:"div"`
 	Nondet     string           `json:"nd"`
 	Sample     []string         `json:"sample"`
+	Steps      int64            `json:"st"`
 }
 
 // IsWorker reports whether this process is a vshard worker.
@@ -118,6 +119,7 @@ func exploreItem(scs []Scenario, cfg Config, it item) result {
 	x := &vsched.Explorer{Delay: cfg.Delay, Bound: boundOf(sc, cfg), MaxPoints: cfg.MaxPoints, Body: sc.Body,
 		Stop: func() bool { return time.Now().After(deadline) }}
 	x.Check = func(r *vsched.Result) {
+		res.Steps += int64(len(r.Points))
 		res.Classes[classOf(sc, r)]++
 		if res.Sample == nil {
 			res.Sample = r.Log
@@ -254,6 +256,7 @@ func Run(c *vk.Ctx, scs []Scenario, cfg Config) {
 	}
 	type agg struct {
 		execs, deadlocks, horizons int64
+		steps                      int64
 		classes                    map[string]int64
 		maxPts, maxG               int
 		sample                     []string
@@ -268,6 +271,7 @@ func Run(c *vk.Ctx, scs []Scenario, cfg Config) {
 		merge := root.res
 		a := aggs[si]
 		a.execs += merge.Executions
+		a.steps += merge.Steps
 		for k, n := range merge.Classes {
 			a.classes[k] += n
 		}
@@ -347,6 +351,7 @@ func Run(c *vk.Ctx, scs []Scenario, cfg Config) {
 				mu.Lock()
 				a := aggs[res.Scenario]
 				a.execs += res.Executions
+				a.steps += res.Steps
 				for k, n := range res.Classes {
 					a.classes[k] += n
 				}
@@ -375,12 +380,14 @@ func Run(c *vk.Ctx, scs []Scenario, cfg Config) {
 	if herr != "" {
 		harnessError(c, herr)
 	}
-	var total int64
+	var total, steps, nclasses int64
 	maxPts, maxG := 0, 0
 	per := map[string]any{}
 	for si, sc := range scs {
 		a := aggs[si]
 		total += a.execs
+		steps += a.steps
+		nclasses += int64(len(a.classes))
 		if a.maxPts > maxPts {
 			maxPts = a.maxPts
 		}
@@ -404,6 +411,12 @@ func Run(c *vk.Ctx, scs []Scenario, cfg Config) {
 	c.Set("bounding", mode)
 	c.Set("bound_completed", cfg.Bound)
 	c.Set("schedules", total)
+	// model-checking style counts: every explored schedule is a trace of the real
+	// implementation; transitions = scheduling decisions executed, states = distinct
+	// end-to-end observations (executions are not merged on intermediate states)
+	c.Set("transitions", steps)
+	c.Set("states", nclasses)
+	c.Set("traces_validated_against_impl", total)
 	c.Set("points_max", maxPts)
 	c.Set("goroutines_max", maxG)
 	c.Set("scenarios", per)
@@ -433,6 +446,7 @@ func exploreItemRootOnly(scs []Scenario, cfg Config, si int) rootOut {
 	res := result{Scenario: si, Classes: map[string]int64{}}
 	r := vsched.Run(nil, cfg.MaxPoints, sc.Body)
 	res.Executions = 1
+	res.Steps = int64(len(r.Points))
 	res.MaxPts, res.MaxG = len(r.Points), r.NG
 	res.Sample = r.Log
 	res.Classes[classOf(sc, r)]++
